@@ -673,6 +673,10 @@ class DiscreteFourierTransformInverse(DiscreteFourierTransformBase):
         effort = flags[0] if flags else 'measure'
 
         direction = 'forward' if self.sign == '-' else 'backward'
+        if self.halfcomplex and len(self.axes) > 1:
+            # FFTW overwrites the input of multi-dimensional
+            # complex-to-real transforms
+            x = x.copy()
         self._fftw_plan = pyfftw_call(
             x, out, direction=direction, axes=self.axes,
             halfcomplex=self.halfcomplex, planning_effort=effort,
